@@ -29,7 +29,7 @@ on a scratch worktree). They are kept under `/verif/seeded/<id>/`
 (patch.diff, demo_test.go, the agent's README.md, meta.json). None is ever
 committed to /repo.
 
-Result: 186 changes: 3 waves x 11 properties x 3 (the second and third wave
+Result: 208 changes: 3 waves x 11 properties x 3 (the second and third wave
 were also given one-line descriptions of the earlier changes so as not to
 repeat them, and the third was asked for the hardest-to-notice realistic
 change), plus a fourth wave of 16 in which each of four agents got all eleven
@@ -40,12 +40,14 @@ a fifth wave of 16 partial regressions of the repair commits themselves
 of 33 (again 3 per property, with the descriptions of everything before) and
 a seventh of 22 (2 per property, asked for changes that need a combination of
 conditions: an option and an error path, state left by an earlier call, a
-particular kind of reader or writer).
-183 are reported by a quick check; 3 are recorded as not pursued
+particular kind of reader or writer) and an eighth of 22 (2 per property;
+the agents were shown, for their property, what every earlier change was and
+what it needed, and asked for a dimension none of them had touched).
+205 are reported by a quick check; 3 are recorded as not pursued
 (C07-w6-m3 needs one particular coincidence of window sizes that neither the
 agent's own sweeps nor ours produce; C08-w3-m3 and C09-w3-m3 need sources / strings of 16 MiB and more - beyond
 every size class the properties name, at seconds and hundreds of MB per run).
-168 of the 183 are reported by the check of the property they were written
+190 of the 205 are reported by the check of the property they were written
 against; 15 break another property's statement more directly and are reported
 there (concurrent callers or real parallelism -> C12: C19-w2-m3, C06-w3-m2,
 C09-w3-m2, C19-w3-m2, C08-w6-m2, C11-w6-m3, C08-w7-m2, C14-w7-m2, C19-w7-m1;
@@ -56,7 +58,12 @@ Misses when first tried: 3 in wave 1, 13 in wave 2, 18 in wave 3 (hard mode),
 4 in wave 4, 6 in wave 5, about 12 in wave 6 and 11 in wave 7 (in wave 6 most,
 in wave 7 four of them answered before the first trial, on reading the
 agents' descriptions; three of wave 7's need overlapping calls and are
-C12's to report)
+C12's to report), 8 in wave 8 (6 of them answered on reading the
+descriptions, before the first trial: long names in planted diagnostics, a
+leading byte-order mark, an endless stream behind a rejected header, the
+kinds of standard input, duplicate definitions, a trailing zero-byte read;
+2 after it: empty-buffer reads answered as `*os.File` answers them, a corpus
+file whose operand bytes carry positions of their own)
 - and one wave-4 change (an endless diagnostic loop in the parser)
 made the check run for over an hour before the supervisor was given a bound
 on worker deaths (section 12);
@@ -174,6 +181,17 @@ The strengthenings, in one list:
   log writers that are plain values of one uncomparable dynamic type (a func
   adapter, a struct holding a slice) and one writer serving as both, under all
   8 observer settings (C19); code sections of 1.07, 2.1 and 3.05 MiB (C09).
+* Wave 8 added: planted names of up to 1100 bytes (C08 and every other user
+  of the plants); a character that cannot start a token as the very first
+  token of the input - U+FEFF, `@`, a backquote, `$` - as a planted lexical
+  failure; C13 variant 9: a rejected header (magic and version sweeps) in
+  front of a stream that does not end, with a bound of 8 MiB on what LoadProg
+  may read before its verdict; standard input of cmd/bcl as a pipe, a regular
+  file, a regular file whose offset was advanced by the parent, a connected
+  socket; `--bload` output compared with the direct run also under `-d`;
+  several named top-level blocks defined more than once (C16); reads into an
+  empty buffer answered with (0, nil) at any offset, as `*os.File` does;
+  corpus file `hand_operandpos.bcb`.
 * C19: programs with 236-330 locals; strings up to 4097 bytes; Execute given
   writers of its own; a failing output writer under all 8 settings; runs of
   more than 65 536 instructions.
